@@ -12,6 +12,9 @@ for depth in (1, 2, 3):
             # quick: absent / parent-only / shadowed at depth <= 2 for every family, plus the
             # grandparent-only and shadowed-twice shapes for the resolving mutators
             tier = "quick" if shape in ("0", "10", "11") else "thorough"
+            # absent in BOTH scopes: where does a vacant entry / an insert put the value?
+            if shape == "00" and op in ("and_modify_or_insert", "or_insert_with", "or_default", "entry_insert", "insert", "remove"):
+                tier = "quick"
             if depth == 3 and shape in ("100", "111") and op in ("remove", "entry_insert", "and_modify_or_insert", "get_mut"):
                 tier = "quick"
             name = "h_c01_%s_d%d_%s" % (op, depth, shape)
